@@ -4,29 +4,29 @@ def fill(check, NA):
           "each transition compared with the matrix-product reference model, plus full products of the element alphabets for homomorphism / inverse / identity / associativity / from_Matrix; "
           "a bounded-exhaustive statement, not a proof over the reals",
           "trusted: CasADi evaluation, numpy; bounds: word depth 3 (quick) / 4 (thorough), alphabets in mc/alpha.py",
-          "bounded exhaustive exploration: explicit-state BFS over API operation words + full alphabet products vs matrix reference model", "DESIGN.md section 4 C01")
+          "bounded exhaustive exploration: explicit-state BFS over API operation words + full alphabet products vs matrix reference model + preemption-bounded exploration of thread interleavings of the Python API (settrace baton)", "DESIGN.md section 4 C01")
 
     check("C02", "model_checking",
           "every (algebra, group) configuration: exhaustive product over the algebra alphabet including both adjacent doubles of every branch boundary of the compiled exp "
           "(found by signature-flip bisection on the real instruction list) against expm of the wedge matrix; BFS over one-parameter words X*exp(s x) against expm((sum s) X)",
           "trusted: scipy expm, CasADi; the wedge map is the library's own algebra to_Matrix (its bracket is C04); bounds in evidence",
-          "bounded exhaustive exploration: alphabet product + branch-boundary harvesting on the compiled program + BFS over one-parameter words vs expm reference", "DESIGN.md section 4 C02")
+          "bounded exhaustive exploration: alphabet product + branch-boundary harvesting on the compiled program + BFS over one-parameter words vs expm reference + preemption-bounded exploration of thread interleavings of the Python API (settrace baton)", "DESIGN.md section 4 C02")
     check("C03", "model_checking",
           "BFS over words {X*g, g*X, X^-1}, g = exp(x_i) and non-canonical representatives, from the identity; every reached state (negative-scalar quaternions, shadow MRPs, "
           "DCMs with round-off) plus all designed representatives judged: exp(log X)=X, log(exp x)=x, principal value equal to the reference logm of the textbook rotation matrix",
           "trusted: numpy reference logm; rotations within 0.01 rad of pi excluded by the reference; depth 2/3",
-          "bounded exhaustive exploration: explicit-state BFS over API words, every state judged against a reference principal logarithm", "DESIGN.md section 4 C03")
+          "bounded exhaustive exploration: explicit-state BFS over API words, every state judged against a reference principal logarithm + preemption-bounded exploration of thread interleavings of the Python API (settrace baton)", "DESIGN.md section 4 C03")
     check("C04", "model_checking",
           "exhaustive products of group and algebra alphabets for conjugation, bracket = commutator, antisymmetry, Jacobi, Ad_exp = expm(ad), shapes; BFS over group words comparing Ad(state) "
           "with the product of the generators' Ad matrices; NotImplementedError operations recorded as out of scope, any other exception is a violation",
           "trusted: numpy inverse, scipy expm; vee by least squares against the library's own wedge basis",
-          "bounded exhaustive exploration: alphabet products + explicit-state BFS over operation words vs matrix conjugation reference", "DESIGN.md section 4 C04")
+          "bounded exhaustive exploration: alphabet products + explicit-state BFS over operation words vs matrix conjugation reference + preemption-bounded exploration of thread interleavings of the Python API (settrace baton)", "DESIGN.md section 4 C04")
 
     check("C05", "exploration",
           "exhaustive product over the so(3)/se(3)/se_2(3) algebra alphabets (angles 0..6.2 rad incl. harvested switch neighbours, all unit directions through the full matrix) against the Frechet "
           "derivative of the reference expm; inverse, Ad and Q-block identities; quaternion (both signs) and MRP (inside/shadow) kinematic Jacobians against the exact derivative of the textbook maps",
           "trusted: scipy expm_frechet, mpmath central difference; inverse identities scaled by cond",
-          "bounded exhaustive input enumeration with branch-boundary harvesting vs differential of reference expm", "DESIGN.md section 4 C05")
+          "bounded exhaustive input enumeration with branch-boundary harvesting vs differential of reference expm + preemption-bounded exploration of thread interleavings of the Python API (settrace baton)", "DESIGN.md section 4 C05")
     check("C06", "exploration",
           "every series table entry (compiled program run in 60-digit arithmetic through sxvm, conformance-gated bitwise against CasADi) vs the exact function on a lattice from 0 and denormals to 1 and on both "
           "adjacent doubles of its own switch; every consumer (exp/log of 9 groups, so3/se3/se23 Jacobians and inverses) in double vs 50-digit references, jump across each harvested switch, "
@@ -46,7 +46,7 @@ def fill(check, NA):
           "function compared with the closed-form flow reference model both accumulated along the word and locally, semigroup law on every state, dt=0 identity, unit norm; one-step lattice with |w| on both "
           "sides of the small-angle switch harvested per dt",
           "trusted: 80-digit power series for Gamma_1, Gamma_2; full 120-item menu to depth 2, 18-item menu to depth 3 (quick) / 4 (thorough)",
-          "bounded exhaustive exploration: explicit-state BFS over input-menu words of the real step function vs closed-form flow reference model", "DESIGN.md section 4 C08")
+          "bounded exhaustive exploration: explicit-state BFS over input-menu words of the real step function vs closed-form flow reference model + preemption-bounded exploration of thread interleavings of the Python API (settrace baton)", "DESIGN.md section 4 C08")
 
     check("C09", "exploration",
           "for every shipped equation set (estimator through both generators, rdd2, rdd2_loglinear, bezier, mr_ref_traj) and every option set of the tier: generation succeeds, exported function set equals the "
@@ -60,7 +60,7 @@ def fill(check, NA):
           "exact equalities; sqrt_correct executed in 60-digit arithmetic against the textbook Kalman update; RK4 exact on all cubic-in-time fields of the lattice, degree-4 Taylor polynomial on y'=lambda y, "
           "observed order on a rotation field; float VM bitwise conformance-gated against CasADi and double results judged",
           "trusted: Fraction, mpmath; dimensions n<=3 (thorough 4/5), m<=2",
-          "bounded exhaustive enumeration over integer matrix lattices with exact-arithmetic interpretation of the real instruction lists", "DESIGN.md section 4 C10")
+          "bounded exhaustive enumeration over integer matrix lattices with exact-arithmetic interpretation of the real instruction lists + preemption-bounded exploration of thread interleavings of the Python API (settrace baton)", "DESIGN.md section 4 C10")
 
     check("C11", "model_checking",
           "BFS over all words of 12 menu items {predict x 6, correct_accel x 3, correct_mag x 3} on the fed-back (x, W) of the real estimator functions from three initial states, invariants judged in every reached state "
@@ -112,13 +112,13 @@ def fill(check, NA):
           "Bezier.eval and deriv(m).eval for every degree 1..7, dimension {1,3} and order 0..n, the cubic and septic boundary-value solvers and trajectory functions and bezier_multirotor executed in exact rational "
           "arithmetic (60-digit where the symbolic inverse needs square roots) over control-point patterns, durations and times inside and outside [0,T], against the power-basis Bernstein reference and its exact derivatives",
           "trusted: Fraction / mpmath arithmetic; float VM conformance-gated against CasADi",
-          "bounded exhaustive enumeration with exact-arithmetic interpretation of the real instruction lists", "DESIGN.md section 4 C18")
+          "bounded exhaustive enumeration with exact-arithmetic interpretation of the real instruction lists + preemption-bounded exploration of thread interleavings of the Python API (settrace baton)", "DESIGN.md section 4 C18")
     check("C19", "exploration",
           "all SymPy expression trees to depth 2 over a 12-leaf alphabet and the converter's constructors (plus matrices, user function maps, cse, shared symbol tables) and all CasADi SX trees to depth 2 over every handled "
           "opcode are converted and evaluated on a point lattice; value equality or explicit refusal; points outside the real domain of the source (any non-real / non-finite sub-expression), within rounding of a "
           "discontinuity, or involving IEEE negative zero are decided by the reference and skipped",
           "trusted: mpmath (30 digits) and CasADi evaluation as references",
-          "bounded exhaustive program enumeration with differential evaluation", "DESIGN.md section 4 C19")
+          "bounded exhaustive program enumeration with differential evaluation + preemption-bounded exploration of thread interleavings of the Python API (settrace baton)", "DESIGN.md section 4 C19")
 
     check("C20", "model_checking",
           "stateless exhaustive exploration on the real uros Core / Publisher / Subscriber / Param / Logger: for every small topology (all subscriber multisets of size <= 3 incl. a relaying subscriber, parameter nodes "
